@@ -515,11 +515,19 @@ def insertName (rw : Str) (crc : Nat) : Option Str := pyFormat Gen.C11.insertPat
 
 abbrev Path := Str
 
+/-- a directory entry that the directory scan lists but `open(name)` cannot read: a sub-directory with that name, a
+symbolic link to nowhere, a file without read permission -/
+inductive Ghost | dir | dangling | noperm
+  deriving DecidableEq, Repr
+
 structure FS where
-  files : List (Path × List UInt8)     -- in directory-listing order
+  files : List (Path × List UInt8)     -- readable regular files, in directory-listing order
+  ghosts : List (Path × Ghost)         -- unopenable entries (listed after the files of their directory)
   dirs : List Path
   readonly : Bool                      -- `open(.., 'w')` and `os.makedirs` raise
   deriving Repr
+
+def FS.ghostAt (fs : FS) (p : Path) : Option Ghost := (fs.ghosts.find? (·.1 = p)).map (·.2)
 
 def FS.read (fs : FS) (p : Path) : Option (List UInt8) :=
   (fs.files.find? (·.1 = p)).map (·.2)
@@ -539,8 +547,9 @@ def globMatch (dir p : Path) : Bool :=
   (let name := p.drop pre.length
    !name.contains 47 && name.head? != some 46 && endsWith name (ofString ".json"))
 
+/-- `glob(dir + '/*.json')` matches names only: unopenable entries are returned too -/
 def glob (fs : FS) (dir : Path) : List Path :=
-  (fs.files.filter fun f => globMatch dir f.1).map (·.1)
+  (fs.files.filter fun f => globMatch dir f.1).map (·.1) ++ (fs.ghosts.filter fun g => globMatch dir g.1).map (·.1)
 
 structure Cache where
   files : List Path        -- `_cache_files`
@@ -580,8 +589,18 @@ def Cache.fetch (fs : FS) (c : Cache) (crc : Nat) : Except Err JVal :=
 
 def encodeText (t : Str) : List UInt8 := t.map UInt8.ofNat
 
-/-- can `open(dir/<file>, 'w')` succeed? -/
+/-- can `open(dir/<file>, 'w')` succeed as far as the directory is concerned? -/
 def FS.canWrite (fs : FS) (dir : Path) : Bool := !fs.readonly && fs.dirs.contains dir
+
+/-- `open(p, 'w')` for `p` directly in `dir`: `none` when it raises (directory missing / not writable, `p` is a directory
+or a file without permission); through a dangling link the file is created (the entry becomes a regular file) -/
+def FS.openW (fs : FS) (dir p : Path) : Option FS :=
+  if fs.canWrite dir then
+    match fs.ghostAt p with
+    | none => some fs
+    | some .dangling => some { fs with ghosts := fs.ghosts.filter (fun g => g.1 ≠ p) }
+    | some _ => none
+  else none
 
 /-- `TocCache.insert(crc, toc)`; every failure is swallowed -/
 def Cache.insert (fs : FS) (c : Cache) (crc : Nat) (toc : Toc) : FS × Cache :=
@@ -591,9 +610,9 @@ def Cache.insert (fs : FS) (c : Cache) (crc : Nat) (toc : Toc) : FS × Cache :=
     match insertName d crc with
     | none => (fs, c)
     | some filename =>
-      if fs.canWrite d then
-        (fs.write filename (encodeText (printToc toc)), { c with files := c.files ++ [filename] })
-      else (fs, c)
+      match fs.openW d filename with
+      | some fs' => (fs'.write filename (encodeText (printToc toc)), { c with files := c.files ++ [filename] })
+      | none => (fs, c)
 
 /-- `insert` cut short after `k` bytes reached the file (process killed, or `write` raised: the
 exception is swallowed, `_cache_files` is not extended).  `open(.., 'w')` has truncated the file. -/
@@ -604,7 +623,9 @@ def Cache.insertCut (fs : FS) (c : Cache) (crc : Nat) (toc : Toc) (k : Nat) : FS
     match insertName d crc with
     | none => (fs, c)
     | some filename =>
-      if fs.canWrite d then (fs.write filename ((encodeText (printToc toc)).take k), c) else (fs, c)
+      match fs.openW d filename with
+      | some fs' => (fs'.write filename ((encodeText (printToc toc)).take k), c)
+      | none => (fs, c)
 
 /-! ## `TocFetcher`: the cache paths of `_new_packet_cb` -/
 
